@@ -1,12 +1,13 @@
 ------------------------------- MODULE GenUni18 -----------------------------
-(* Evaluates one C18 universe expression once and prints it (targets, context *)
-(* documents and the ranges of Uni.tla) as JSON; see harness/c18.py.          *)
+(* Evaluates one C18 universe expression (a set of surface documents) once    *)
+(* and prints it as JSON; harness/c18.py packs targets + context documents    *)
+(* into the file read through Uni.tla.                                        *)
 EXTENDS Props_C18, Json
 
 CONSTANTS UDocs
 VARIABLE x
 Init == x = 0
 Next == UNCHANGED x
-ASSUME PrintT(ToJson(U_Pack(UDocs)))
+ASSUME PrintT(ToJson([docs |-> SetToSeq(UDocs)]))
 ASSUME PrintT(<<"SIZE", Cardinality(UDocs)>>)
 =============================================================================
